@@ -216,6 +216,13 @@ func suiteDiffReport(c *Ctx) error {
 			plan = append(plan, plannedFn{"(*Chain).Walk", "(*Chain).Depth", "renamed"}, plannedFn{"", "(*Chain).Size", "added"},
 				plannedFn{"chainWeight", "chainWeight", "kept"})
 		}
+		// closures inside closures (two levels): every one of them is a function of the file and has its row
+		{
+			deep := "func Deep(n int) int {\n\touter := func(a int) int {\n\t\tinner := func(b int) int {\n\t\t\tinnermost := func(c int) int { return c*3 + n }\n\t\t\treturn innermost(b) + 1\n\t\t}\n\t\treturn inner(a) * 2\n\t}\n\treturn outer(n)\n}\n\n"
+			oldSrc += deep
+			newSrc += strings.Replace(deep, "return inner(a) * 2", "return inner(a) * 4", 1)
+			plan = append(plan, plannedFn{"Deep", "Deep", "kept"})
+		}
 		// a function REWRITTEN wholesale under its old name (other signature, other callees, other control
 		// flow): the two versions have nothing in common but the name, and the name is what pairs them
 		oldSrc += "func Process(xs []int) int {\n\tt := 0\n\tfor i := 0; i < len(xs); i++ {\n\t\tif xs[i] > t {\n\t\t\tt = xs[i]\n\t\t}\n\t}\n\treturn t\n}\n\n"
@@ -549,6 +556,51 @@ func suiteDiffReport(c *Ctx) error {
 		exps = append(exps, e)
 		if pi == 0 {
 			c.Sample(map[string]interface{}{"plan": plan, "summary": out.Summary})
+		}
+	}
+	// ---- just below the threshold: a removed and an added function of one fuzzy bucket whose similarity
+	// is 0.5968 (threshold 0.6).  Whatever is done to the number for DISPLAY, the decision is taken on
+	// the number itself: they are not a rename. ----
+	{
+		hdr := "package main\n\nimport (\n\t\"fmt\"\n\t\"os\"\n\t\"strings\"\n)\n\nvar _ = strings.ToLower\n\nfunc main() { fmt.Println(keep(1), os.Getenv(\"HOME\")) }\n\nfunc keep(n int) int {\n\tt := 0\n\tfor i := 0; i < n; i++ {\n\t\tt += i\n\t}\n\treturn t\n}\n\nfunc plainOld(s string) string {\n\tif s == \"\" {\n\t\treturn \"empty\"\n\t}\n\treturn strings.ToLower(s)\n}\n"
+		oldSrc := hdr + "\nfunc checkInput(a int, b string) int {\n\tif len(fmt.Sprint(a, b)) == 0 {\n\t\tpanic(\"x\")\n\t}\n\treturn len(os.Getenv(\"Q\")) + 2\n}\n"
+		newSrc := strings.Replace(hdr, "func plainOld(", "func plainNew(", 1) + "\nfunc tally(a string, b int) int {\n\tif len(os.Getenv(\"K\")) > 2 {\n\t\treturn len(fmt.Sprint(a, b)) + 1\n\t}\n\treturn len(fmt.Sprint(a)) + len(fmt.Sprint(b)) + 5\n}\n"
+		fo, e1 := writeModule(c.Work, "band_old", "main.go", oldSrc)
+		fn, e2 := writeModule(c.Work, "band_new", "main.go", newSrc)
+		if e1 == nil && e2 == nil {
+			ro, e3 := fingerprintFile(fo, oldSrc, ir.DefaultLiteralPolicy)
+			rn, e4 := fingerprintFile(fn, newSrc, ir.DefaultLiteralPolicy)
+			out, e5 := cli.ComputeDiff(cli.RealFileSystem{}, fo, fn)
+			if e3 == nil && e4 == nil && e5 == nil {
+				var to, tn *topology.FunctionTopology
+				for _, x := range ro {
+					if strings.HasSuffix(x.FunctionName, ".checkInput") {
+						to = topology.ExtractTopology(x.GetSSAFunction())
+					}
+				}
+				for _, x := range rn {
+					if strings.HasSuffix(x.FunctionName, ".tally") {
+						tn = topology.ExtractTopology(x.GetSSAFunction())
+					}
+				}
+				if to != nil && tn != nil {
+					sim := topology.TopologySimilarity(to, tn)
+					c.Res.Evaluations++
+					c.Count(fmt.Sprintf("band_pair_similarity_%.4f", sim))
+					if sim < models.DefaultTopologyMatchThreshold {
+						for _, fd := range out.Functions {
+							if strings.Contains(fd.Function, "checkInput") && strings.Contains(fd.Function, "tally") {
+								c.Violate("C19", "C19/paired-below-threshold", fmt.Sprintf("checkInput and tally have similarity %.6f < %.2f and are reported as %q (%s)", sim, models.DefaultTopologyMatchThreshold, fd.Function, fd.Status),
+									map[string]interface{}{"old_source": oldSrc, "new_source": newSrc, "similarity": sim, "entry": fd})
+							}
+						}
+					} else {
+						c.Skip("band_pair_not_below_threshold")
+					}
+				}
+			} else {
+				c.Skip("band_pair_does_not_load")
+			}
 		}
 	}
 	mouts, err := RunModel(c.Model, "diffreport", lines)
